@@ -39,7 +39,7 @@ ParamsOk(P) == P.lbase <= 0 /\ P.lbase + P.lrange > 0 /\ P.lrange <= 255 /\ P.lr
 Select(P, dline, dop) ==
     LET specialDefault == OBASE - P.lbase            \* special_base.wrapping_sub(line_base)
         sl        == dline - P.lbase                 \* special_line (u64: negative = huge)
-        useLine   == dline # 0 /\ sl >= 0 /\ sl < P.lrange
+        useLine   == dline # 0 /\ sl >= 0 /\ sl < P.lrange /\ OBASE + sl <= 255     \* must fit a byte
         special0  == IF useLine THEN OBASE + sl ELSE specialDefault
         pre1      == IF dline # 0 /\ ~useLine THEN << <<"L", dline>> >> ELSE <<>>
         fits      == special0 + dop * P.lrange <= 255
@@ -54,14 +54,10 @@ Select(P, dline, dop) ==
         last      == IF useSpec /\ special1 # specialDefault THEN <<"S", special1>> ELSE <<"Y", 0>>
     IN pre1 \o pre2 \o <<last>>
 
-(* As coded, a line advance that fits line_range but whose special opcode  *)
-(* 13 + (dline - line_base) exceeds 255 is not caught (only possible when  *)
-(* line_range > 243): generate_row then emits `special as u8` (release) or *)
-(* fails a debug assertion.  Select mirrors the code (the opcode value is  *)
-(* left untruncated here so that the condition is visible); the theorem is *)
-(* stated for the points where this does not happen, and the check reports *)
-(* the others from the observation.                                        *)
-SelectOverflow(P, dline) == dline # 0 /\ dline - P.lbase > 255 - OBASE /\ dline - P.lbase < P.lrange
+(* History: before gimli 2f2b9d1 the `OBASE + sl <= 255` test was missing   *)
+(* (finding select:special-opcode-overflow, possible for line_range > 243); *)
+(* the products below are checked / saturating in the code, which is the    *)
+(* integer meaning used here.                                               *)
 
 (* effect of one instruction: [dl, do, row] (DWARF 6.2.5.1 / 6.2.5.2) *)
 Eff(P, i) ==
@@ -120,7 +116,7 @@ FileRaw(P, f) == IF P.ver <= 4 THEN f + 1 ELSE f
 (* (<<0, 0>> at its start), rows: the rows generated so far as the reader  *)
 (* must report them.                                                       *)
 BInit(P) == [prev |-> RowInit(P), row |-> RowInit(P), ins |-> <<>>, inseq |-> FALSE,
-             base |-> <<0, 0>>, rows |-> <<>>, opireset |-> FALSE]
+             base |-> <<0, 0>>, rows |-> <<>>]
 
 OpAdvanceW(P, B) ==           \* LineProgram::op_advance
     ((B.row.off - B.prev.off) \div P.mil) * P.maxops + B.row.opi - B.prev.opi
@@ -129,14 +125,11 @@ BeginSequence(P, B, addr) ==  \* addr: <<>> or <<a>>; requires ~B.inseq
     [B EXCEPT !.inseq = TRUE,
               !.ins = IF addr = <<>> THEN @ ELSE Append(@, <<"A", addr[1]>>),
               !.base = IF addr = <<>> THEN @ ELSE <<addr[1], B.prev.off>>]
-(* As coded, set_address leaves prev_row.op_index alone although            *)
-(* DW_LNE_set_address resets the reader's op_index to 0: with max_ops > 1   *)
-(* and a non-zero op_index the next delta is computed from the wrong        *)
-(* operation pointer (flag `opireset`; the check reports it from the        *)
-(* observation).                                                           *)
+(* DW_LNE_set_address resets a reader's op_index to 0, so set_address also  *)
+(* resets prev_row.op_index (gimli 235ab7d; before: finding                 *)
+(* vliw:set_address-keeps-stale-op_index).                                 *)
 SetAddress(P, B, a) ==
-    [B EXCEPT !.inseq = TRUE, !.ins = Append(@, <<"A", a>>), !.base = <<a, B.prev.off>>,
-              !.opireset = @ \/ B.prev.opi # 0]
+    [B EXCEPT !.inseq = TRUE, !.ins = Append(@, <<"A", a>>), !.base = <<a, B.prev.off>>, !.prev.opi = 0]
 SetRow(B, r) == [B EXCEPT !.row = r]
 
 (* the row a reader must report for builder row r *)
